@@ -14,7 +14,7 @@ EXPLANATION = (
     "everything else written is a slice of the input. (R3.2) the emission template of nt::write_term / write_triple / "
     "the nq closure is extracted per term kind from all success paths and compared with the N-Quads productions "
     "(`<iri>`, `_:label`, `\"lex\"`, `\"lex\"@tag`, `\"lex\"^^<dt>` iff dt != xsd:string, `<<s p o>>`, graph name only "
-    "for named graphs, exactly one ` .\\n`-terminator per statement). (R3.4) the writer never refuses a term: in nt.rs/nq.rs an io::Error is only ever constructed around the error it re-wraps. (L3.3, proof) what is written raw is legal raw: "
+    "for named graphs, exactly one ` .\\n`-terminator per statement). (R3.1c) a byte selected for escaping always reaches the escape switch before Ok is returned or the next round starts (it is never dropped, e.g. as last byte). (R3.4) the writer never refuses a term: in nt.rs/nq.rs an io::Error is only ever constructed around the error it re-wraps. (L3.3, proof) what is written raw is legal raw: "
     "the validators' languages are included in IRIREF / BLANK_NODE_LABEL (no trailing '.') / LANGTAG, none contains "
     "CR/LF. NOT decided: equality of the re-parsed dataset with the input (needs the parser); rio_turtle is trusted "
     "to implement the W3C N-Triples/N-Quads grammar.")
@@ -140,6 +140,7 @@ def quoted_string_rule(ck, facts):
     except CheckError as e:
         ck.bad("R3.1", key + "#decision", str(e), fn.loc)
         return
+    escape_reached_rule(ck, fn, sbi, cutchar, cut_blocks)
     ck.extra["escaped_bytes"] = sorted(cut)
     ck.ok("R3.1-domain", "escape decision evaluated for 256/256 byte values: escaped = %s" % sorted(cut))
     missing = MUST_ESCAPE - cut
@@ -173,6 +174,80 @@ def quoted_string_rule(ck, facts):
                 ck.ok("R3.1", "raw slice of the input at bb%d" % bi, nontrivial=False)
         elif call_name_matches(t, r"io::Write::write$|write_fmt$|fmt::Write"):
             ck.bad("R3.1", key + "#other-write", "unexpected writer call %s" % t["f"]["name"], "%s:%s" % (t["file"], t["line"]))
+
+
+def escape_reached_rule(ck, fn, sbi, cutchar, cut_blocks):
+    """R3.1c: once the scan has stopped on a byte that needs escaping, the escape switch is reached before the function
+    returns successfully or starts the next round: a byte selected for escaping is never silently dropped (in particular
+    not when it is the last byte of the string).  Walk of the CFG from the block that records the byte, with the one
+    arithmetic fact the code relies on: the recorded position is an index of the slice, hence `pos < slice.len()`."""
+    key = "R3.1c@quoted_string"
+    for brk in sorted(cut_blocks):
+        # the position local: the usize local assigned in the same block
+        pos_locals = [st[1][0] for st in fn.blocks[brk]["s"] if st[0] == "=" and len(st[1]) == 1 and fn.locals[st[1][0]]["ty"] == "usize"
+                      and fn.locals[st[1][0]].get("name")]
+        loop_heads = set()
+        for bi, b in enumerate(fn.blocks):
+            t = b["t"]
+            if t["t"] == "call" and len(t["dest"]) == 1 and t["dest"][0] in pos_locals and bi != brk:
+                loop_heads.add(bi)        # `cut = txt.len()` at the top of the next round
+        ok_rets = set()
+        for bi, b in enumerate(fn.blocks):
+            for st in b["s"]:
+                if st[0] == "=" and st[1] == [0] and st[2][0] == "agg" and st[2][1].get("vname") == "Ok":
+                    ok_rets.add(bi)
+
+        def is_len(op):
+            o = fn.origin(op)
+            return (o[0] == "call" and call_name_matches(o[1], r"slice::<impl \[T\]>::len$|str>::len$")) or \
+                   (o[0] == "rvalue" and o[1][0] in ("len", "ptrmeta", "un") )
+
+        def is_pos(op):
+            if op[0] == "k":
+                return False
+            l = op[1][0]
+            for _ in range(6):
+                if l in pos_locals:
+                    return True
+                sd = fn.single_def(l)
+                if sd is None or sd[2][0] != "use" or sd[2][1][0] == "k" or len(sd[2][1][1]) != 1:
+                    return False
+                l = sd[2][1][1][0]
+            return False
+        escaped = [None]
+        seen = set()
+        st = [brk]
+        while st:
+            b = st.pop()
+            if b in seen:
+                continue
+            seen.add(b)
+            if b == sbi:
+                continue                 # the escape switch: this path is fine
+            if b in ok_rets or (b in loop_heads and b != brk):
+                escaped[0] = b
+                break
+            t = fn.blocks[b]["t"]
+            if t["t"] == "switch" and t.get("ty") == "bool" and t["on"][0] != "k":
+                sd = fn.single_def(t["on"][1][0])
+                if sd is not None and sd[2][0] == "bin" and sd[2][1] in ("Lt", "Ge") and is_pos(sd[2][2]) and is_len(sd[2][3]):
+                    vals = dict((v, tb) for v, tb in t["vals"])
+                    false_t, true_t = (vals["0"], t["else"]) if "0" in vals else (t["else"], vals.get("1"))
+                    st.append(true_t if sd[2][1] == "Lt" else false_t)      # pos < len holds
+                    continue
+            var = t.get("variants") if t["t"] == "switch" else None
+            if var and var["enum"] == "core::ops::control_flow::ControlFlow":
+                for v, tb in t["vals"]:
+                    if var["names"].get(v) == "Continue":
+                        st.append(tb)        # error exits (`?`) are not successful returns
+                continue
+            st.extend(fn.succs(b))
+        if escaped[0] is not None:
+            ck.bad("R3.1c", key + "#escape-skipped", "after stopping on a byte that needs escaping, quoted_string can %s without passing "
+                   "the escape switch: that byte is dropped from the output (e.g. when it is the last byte of the literal)"
+                   % ("return Ok" if escaped[0] in ok_rets else "start the next round"), fn.loc)
+        else:
+            ck.ok("R3.1c", "quoted_string: a byte selected for escaping always reaches the escape switch before Ok / the next round")
 
 
 ACCESSORS = r"Term::(iri|bnode_id|lexical_form|language_tag|datatype|variable)$"
